@@ -1,13 +1,12 @@
 (* Props/C06.v -- the assignment solver.  Statements only; proofs live in Proofs/Munkres*.v.
-   Model: Model/Munkres.v (line-by-line transcription of Munkres.compute and its six steps), instance Z.
-   C06_munkres_correct is the property for exact integer costs: every rectangular matrix with entries in [0, B],
-   max(r,c) * B < sys.maxsize, is solved (the fuel of the model's loops is never exhausted, no error branch is
-   taken) and the result is a complete matching of minimum cost, listed by increasing row.
-   C06_munkres_partial_correct needs no bound at all (arbitrary integers): whenever the model returns, the result is
-   a complete minimum-cost matching.  The bound in the termination half is what the argument needs
-   (find_smallest starts from sys.maxsize; the dual objective bounds the step-6 decrement by n*B); the statement with
-   the weaker bound `entry < sys.maxsize` (MunkresSpec.munkres_correct_statement) is NOT proved -- it is kept there
-   as the full-strength statement, C06_munkres_correct is its `_partial` form with the bound made explicit. *)
+   Model: Model/Munkres.v (line-by-line transcription of Munkres.compute and its six steps, as repaired by fix ea8a5bc:
+   find_smallest starts from the first uncovered value), instance Z.
+   C06_munkres_correct is the property at full strength for exact integer costs: EVERY rectangular matrix of integers
+   (r, c >= 1, any size, any magnitude, even negative entries) is solved -- the fuel of the model's loops is never
+   exhausted and no error branch is taken -- and the result is a complete matching (min(r,c) pairs, each row and column
+   at most once) of minimum total cost, listed by increasing row.  It is also stated in the exact form fixed beforehand
+   (MunkresSpec.munkres_correct_statement).  Before the fix the termination half needed max(r,c)*B < sys.maxsize and
+   was false without it (the model ran out of fuel on [[10^25,2*10^25],[3*10^25,5*10^25]], the real code hung on 1e30). *)
 From Coq Require Import ZArith List Permutation.
 From Verif.Model Require Import Munkres.
 From Verif.Model Require Import MunkresReuse.
@@ -15,11 +14,9 @@ From Coq Require Import Sorted.
 From Verif.Proofs Require Import MunkresDuality MunkresSpec MunkresReuse MunkresCorrect MunkresTerm.
 Import ListNotations.
 
-(* the property, exact integer costs, all sizes *)
-Theorem C06_munkres_correct : forall (r c : nat) (M : list (list Z)) (B : Z),
+(* the property, exact integer costs, all sizes, all magnitudes *)
+Theorem C06_munkres_correct : forall (r c : nat) (M : list (list Z)),
   (1 <= r)%nat -> (1 <= c)%nat -> rect r c M ->
-  (forall i j, (i < r)%nat -> (j < c)%nat -> (0 <= gz M i j <= B)%Z) ->
-  (Z.of_nat (Nat.max r c) * B < zmaxsize)%Z ->
   exists res, computeZ M = Some res
     /\ is_matching r c res /\ length res = Nat.min r c
     /\ (forall m, is_matching r c m -> length m = Nat.min r c -> (cost M res <= cost M m)%Z)
@@ -27,14 +24,15 @@ Theorem C06_munkres_correct : forall (r c : nat) (M : list (list Z)) (B : Z),
     /\ (r = c -> map fst res = seq 0 r).
 Proof. exact munkres_correct. Qed.
 
+(* the same in the form written down before the proof existed (Proofs/MunkresSpec.v) *)
+Theorem C06_munkres_correct_statement : munkres_correct_statement.
+Proof. exact munkres_correct_spec. Qed.
+
 Theorem C06_munkres_partial_correct : munkres_partial_correct_statement.
 Proof. exact munkres_partial_correct. Qed.
 
-Theorem C06_munkres_terminates : forall (r c : nat) (M : list (list Z)) (B : Z),
-  (1 <= r)%nat -> (1 <= c)%nat -> rect r c M ->
-  (forall i j, (i < r)%nat -> (j < c)%nat -> (0 <= gz M i j <= B)%Z) ->
-  (Z.of_nat (Nat.max r c) * B < zmaxsize)%Z ->
-  computeZ M <> None.
+Theorem C06_munkres_terminates : forall (r c : nat) (M : list (list Z)),
+  (1 <= r)%nat -> (1 <= c)%nat -> rect r c M -> computeZ M <> None.
 Proof. exact munkres_terminates. Qed.
 
 (* used by C05/C07: results come row by row *)
@@ -63,7 +61,7 @@ Proof. exact solve_all_fresh. Qed.
 Example C06_ex_3x3 : computeZ [[4;1;3];[2;0;5];[3;2;2]]%Z = Some [(0,1);(1,0);(2,2)]%nat.
 Proof. vm_compute. reflexivity. Qed.
 
-(* the hypotheses of C06_munkres_correct are satisfiable: a 3x4 grade-like matrix scaled to integers *)
+(* non-vacuity: a 3x4 grade-like matrix scaled to integers (the bounded corollary's hypotheses hold too) *)
 Example C06_ex_hypotheses : rect 3 4 [[9;3;7;10];[5;9;10;0];[0;7;3;3]]%Z
   /\ (forall i j, (i < 3)%nat -> (j < 4)%nat -> (0 <= gz [[9;3;7;10];[5;9;10;0];[0;7;3;3]]%Z i j <= 10)%Z)
   /\ (Z.of_nat (Nat.max 3 4) * 10 < zmaxsize)%Z
@@ -76,6 +74,12 @@ Proof.
   destruct j as [|[|[|[|j]]]]; try (exfalso; apply (PeanoNat.Nat.lt_irrefl 4); eapply PeanoNat.Nat.le_lt_trans; [| exact Hj]; repeat apply le_n_S; apply le_0_n);
   vm_compute; split; discriminate.
 Qed.
+
+(* the former counterexample to termination (fuel exhausted before fix ea8a5bc) is now solved *)
+Example C06_ex_huge_costs :
+  computeZ [[10000000000000000000000000; 20000000000000000000000000];
+            [30000000000000000000000000; 50000000000000000000000000]]%Z = Some [(0,1);(1,0)]%nat.
+Proof. vm_compute. reflexivity. Qed.
 
 Example C06_ex_rectangular : computeZ [[4;1;3;9];[2;0;5;1]]%Z = Some [(0,1);(1,3)]%nat
   /\ computeZ [[4;1];[2;0];[3;7]]%Z = Some [(1,1);(2,0)]%nat.
